@@ -11,6 +11,7 @@ import Driver.CmdRun
 import Driver.CmdAnalyse
 import Driver.CmdIso
 import Driver.CmdPersist
+import Driver.CmdWorld
 /-! Command table of the replay driver (model instantiated at `Float`). -/
 namespace Driver
 open RQ.F
@@ -75,6 +76,9 @@ def dispatch (toks : List String) : String :=
   | some r => r
   | none =>
   match cmdPersist toks with
+  | some r => r
+  | none =>
+  match cmdWorld toks with
   | some r => r
   | none => "ERR unknown-command"
 
